@@ -25,6 +25,7 @@ F = [
  ("e0e50b5", ["C19"], "hover / definition on the second of two touching tokens ($a$b) answered with the first (inclusive range end) (found by a bug-hunt sub-agent; reproduced by C19's navigation monitor once layouts glue $, @ and string tokens)"),
  ("1c4e09b", ["C20","C13"], "Monetary.MarshalJSON did not escape the asset: CLI JSON decoded to another text or the encoder crashed for assets containing a backslash / quote / control character (found by a bug-hunt sub-agent; reproduced by C20's odd-asset cases)"),
  ("0114a1b", ["C20"], "`numscript run` ignored the decode error of a -b / -m / -v file: a balances file with one amount written 1e+21 (or 10.0, or a byte order mark in front) was dropped as a whole and the script ran on empty data, printing other postings (or no error) with exit status 0 (found by a second-round bug-hunt sub-agent; reproduced by C20's file-channel notation cases: sig run-result-differs:files / run-exit-status:error)"),
+ ("b975975", ["C19","C18"], "textDocument/didChange with an empty contentChanges array panicked (index out of range [-1]) and the language server process died: no later request was answered (found by a second-round bug-hunt sub-agent; reproduced by C19's change-with-no-content-changes requests: sig panic:lsp.Handle)"),
  ("e6ff71c", ["C02","C06"], "allotment with `remaining` and other portions above one produced a negative posting (world->c -3) (reported by a seeding sub-agent, reproduced by C02's oversum stratum)"),
 ]
 out = {"_comment": "Read-only at run time. status=fixed entries are informational and suppress nothing; a status=known entry would match a violation by property + signature (+ optional input substring). No known (unrepaired) finding exists at present.", "findings": []}
